@@ -198,3 +198,38 @@ Definition spec_ok (s : tsig) (obs : result cli) : bool :=
       one_arg_per_param s o && flags_wellformed s o && flags_distinct o &&
       positional_ok s o && kinds_ok s o && kwargs_ok s o
   end.
+
+(** ** Guards used by the partial theorems (boolean, so that the harness can
+    tell whether a case lies in the proved region) *)
+Fixpoint all_chars (f : ascii -> bool) (s : string) : bool :=
+  match s with
+  | EmptyString => true
+  | String c s' => f c && all_chars f s'
+  end.
+
+Definition ident_char (c : ascii) : bool := is_alnum c || Ascii.eqb c "_"%char.
+
+(** an (ASCII) Python identifier; the leading-digit rule is irrelevant here *)
+Definition ident_ok (n : string) : bool := negb (String.eqb n "") && all_chars ident_char n.
+
+(** distinct valid identifiers whose dashed forms are pairwise distinct *)
+Definition wf_sig (s : tsig) : bool :=
+  negb (has_dup (map p_name (s_params s))) &&
+  forallb (fun p => ident_ok (p_name p)) (s_params s) &&
+  negb (dashed_clash s).
+
+(** outside F-C09b: every name keeps something once underscores are gone *)
+Definition all_have_core (s : tsig) : bool := forallb (fun p => has_core (p_name p)) (s_params s).
+
+(** outside F-C09c: no underscored name whose dashed form is a single
+    character (the only names an earlier auto short flag can take away) *)
+Definition no_steal (s : tsig) : bool :=
+  negb (d_auto_short (s_deco s)) ||
+  forallb (fun p => negb (contains_char "_"%char (p_name p) &&
+                          Nat.eqb (String.length (dashed (p_name p))) 1)) (s_params s).
+
+(** outside F-C09d: no parameter is called no_<default-true boolean> *)
+Definition no_inverse_clash (s : tsig) : bool :=
+  forallb (fun p => negb (wants_inverse s p &&
+                          mem ("no-" ++ dashed (p_name p))%string
+                              (map (fun q => dashed (p_name q)) (s_params s)))) (s_params s).
